@@ -113,18 +113,39 @@ def finding_key(viol, kind, opn):
 
 def run(ctx):
     ctx.proofs()
+    ok, log = ctx.coq_make(["C04/Check.vo"])          # the correspondence definitions are not under Properties.v
+    if not ok:
+        ctx.broken("coq-build:C04/Check.vo", log[-2000:])
     hx = ctx.go_build("c04")
     ngraphs = 250 if ctx.quick() else 4000
     ncoq = 45 if ctx.quick() else 400          # graphs whose every probe is also evaluated inside Coq
     recs = ctx.jsonl([hx, "-seed", str(ctx.seed), "-n", str(ngraphs)], timeout=840)
     graphs = [r for r in recs if r["kind"] == "graph"]
+    nnested = len([r for r in recs if r["kind"] == "nested"])
     ctx.log("harness: %d graphs, %d probes, %d child failures" % (
-        len(graphs), sum(len(g["probes"] or []) for g in graphs), len(recs) - len(graphs)))
+        len(graphs), sum(len(g["probes"] or []) for g in graphs), len(recs) - len(graphs) - nnested))
     dist = {}
 
     def count(k):
         dist[k] = dist.get(k, 0) + 1
 
+    # ---- a module that finishes while the owner of a captured variable is still running
+    nested = [r for r in recs if r["kind"] == "nested"]
+    recs = [r for r in recs if r["kind"] != "nested"]
+    for r in nested:
+        count("nested:%s:%s" % ("rebind" if r["rebind"] else "no-rebind", "kept-by-owner" if r["keep_in_a"] else "not-kept"))
+        if r.get("err_a"):
+            ctx.broken("harness:C04 nested", "variant %d failed: %s" % (r["variant"], r["err_a"]))
+        elif r["mutable"]:
+            ctx.finding("closure-variable-rebound-after-freeze:%s" % ("kept-by-owner-module" if r["keep_in_a"] else "not-kept"),
+                        "module B (run by a built-in while function outer of module A is active) binds outer's inner function to a global and finishes; outer then re-assigns the captured variable; the %s now held by the frozen closure is reachable from B's global and accepted a mutation: %s" % (r["value"], r["seen"]),
+                        {"module_a": r["src_a"], "module_b": r["src_b"], "how": "predeclared run_b(f) executes module_b with predeclared f (harness/cmd/c04 runNested variant %d); afterwards call B's g() and Append/SetKey on the result" % r["variant"], "observed": r["seen"]})
+    if nested:
+        bad = coq_mismatches(ctx, "c04_nested", HEADER, ["(%s, %s, %s)" % (cbool(r["rebind"]), cbool(r["keep_in_a"]), cbool(r["mutable"])) for r in nested if not r.get("err_a")], "nested_ok")
+        if bad:
+            ctx.broken("correspondence:C04.Model nested", "the model (freeze_globals; SCellSet; freeze_globals) predicts otherwise for nested variants %s" % bad)
+    else:
+        ctx.broken("harness:C04 nested", "the nested-module scenarios did not run")
     # ---- children that died: the epilogue (or anything else) brought the process down
     for r in recs:
         if r["kind"] != "graph":
@@ -237,7 +258,7 @@ Definition s_ok (c : (nat * probe) + (nat * nat * list nat)) : bool :=
         "rule": "seeded graph descriptions (2-12 objects: host lists/dicts/sets passed through predeclared, some frozen beforehand; lists, dicts with object keys, sets, tuples, structs, functions with defaults and captured variables incl. themselves and later ones, bound methods; links that create cycles and sharing; 0-3 globals; 30%% planted failures at top level or inside the builder) x every existing object x 2-19 operations per kind (boundary indices, present/absent keys, empty/non-empty arguments) x a route (attribute call, module code, closure, stored bound method, Go API), each on a fresh instance; distinct_nontrivial = attempts on list/dict/set objects reachable from the globals; all probes go through the Go oracle, the probes of the first %d graphs also through C04.Model and C04.Spec inside Coq" % len(sample),
         "samples": [{"module": g["src"], "roots": g.get("roots"), "probe": (g["probes"] or [None])[0]} for g in graphs[:2]],
         "distribution": dist, "coq_cases": ncases, "model_mismatches": bad_model_total, "spec_mismatches": bad_spec_total,
-        "graphs": len(graphs), "child_failures": len(recs) - len(graphs),
+        "graphs": len(graphs), "child_failures": len(recs) - len(graphs), "nested_scenarios": nnested,
         "sequence_ops": sum(g.get("storm_ops", 0) for g in graphs),
     }
     return ctx.finish(LEVEL, cov, assumptions=[
